@@ -227,7 +227,10 @@ func (e ProtoEngine) Gen(prop, tier string, seed uint64, yield func(c any) bool)
 						case 2:
 							s.B.GrindPubZeros = 1
 						}
-						if r%3 == 1 && r >= 3 && rng.Chance(1, 4) && pid != 18 {
+						if r%3 == 1 && r >= 3 && rng.Chance(1, 4) && (pid == 10 || pid == 12) {
+							// two leading zero octets cost about 65 000 key pairs: only on the curves with fast arithmetic
+							// (on the generic big-integer curves one such run takes minutes and tripped the silence watchdog
+							// of a loaded machine in the thorough tier)
 							s.B.GrindSharedZeros = 2
 						}
 						if !yield(ProtoCase{Proto: "pace", Spec: s, Mode: "genuine"}) {
